@@ -61,6 +61,9 @@ pub struct Setup {
     pub convention: u8,
     #[serde(default)]
     pub modifier: u8,
+    /// user-dual nodes are re-expressed on ONE shared variable list (same Arc, zero padding)
+    #[serde(default)]
+    pub share_vars: bool,
 }
 
 pub fn convention_of(i: u8) -> Convention {
@@ -264,6 +267,7 @@ pub fn generate(rng: &mut Rng, tier: Tier) -> Plan {
             index_base,
             convention: rng.below(11) as u8,
             modifier: rng.below(5) as u8,
+            share_vars: rng.chance(0.25),
         },
         history: History::Exhaustive { depth },
         queries,
@@ -376,6 +380,22 @@ impl Sut {
     }
 }
 
+fn all_user_names(nodes: &[NodeSpec]) -> Vec<String> {
+    let mut out: Vec<String> = Vec::new();
+    for n in nodes {
+        let g = match &n.num {
+            Num::D { g, .. } | Num::D2 { g, .. } => g,
+            _ => continue,
+        };
+        for (nm, _) in g {
+            if !out.contains(nm) {
+                out.push(nm.clone());
+            }
+        }
+    }
+    out
+}
+
 fn uniform_kind(nodes: &[NodeSpec]) -> Option<u8> {
     let k = nodes[0].num.kind();
     if nodes.iter().all(|n| n.num.kind() == k) {
@@ -440,22 +460,35 @@ pub fn build_with_cal(setup: &Setup, pycal: Option<CalType>) -> Result<Sut, Fail
                         .map(|n| (ts_to_ndt(n.ts), n.num.value())),
                 )),
                 1 => {
+                    use rateslib::dual::Vars;
                     let mut m = IndexMap::new();
+                    let anchor = rateslib::dual::Dual::new(0.0, all_user_names(&setup.nodes));
                     for n in &setup.nodes {
                         if let Num::D { v, g } = &n.num {
-                            m.insert(ts_to_ndt(n.ts), to_dual(v.get(), g).map_err(|e| herr(&e))?);
+                            let d = to_dual(v.get(), g).map_err(|e| herr(&e))?;
+                            let d = if setup.share_vars {
+                                d.to_new_vars(anchor.vars(), None)
+                            } else {
+                                d
+                            };
+                            m.insert(ts_to_ndt(n.ts), d);
                         }
                     }
                     Nodes::Dual(m)
                 }
                 _ => {
+                    use rateslib::dual::Vars;
                     let mut m = IndexMap::new();
+                    let anchor = rateslib::dual::Dual2::new(0.0, all_user_names(&setup.nodes));
                     for n in &setup.nodes {
                         if let Num::D2 { v, g, h } = &n.num {
-                            m.insert(
-                                ts_to_ndt(n.ts),
-                                to_dual2(v.get(), g, h).map_err(|e| herr(&e))?,
-                            );
+                            let d = to_dual2(v.get(), g, h).map_err(|e| herr(&e))?;
+                            let d = if setup.share_vars {
+                                d.to_new_vars(anchor.vars(), None)
+                            } else {
+                                d
+                            };
+                            m.insert(ts_to_ndt(n.ts), d);
                         }
                     }
                     Nodes::Dual2(m)
